@@ -16,6 +16,10 @@ import (
 type availEnt struct {
 	p   *apath
 	rep ssa.Value
+	// ver (with rep == nil): a synthetic name for the unknown content of the location — created where an in-module
+	// callee receives a pointer to the enclosing struct, so that what one call learns about the content (a predicate
+	// method returning false) is still known at a later call that sees the same version
+	ver string
 }
 type availMap map[string]availEnt
 
@@ -32,7 +36,7 @@ func availEqual(a, b availMap) bool {
 		return false
 	}
 	for k, v := range a {
-		if w, ok := b[k]; !ok || w.rep != v.rep {
+		if w, ok := b[k]; !ok || w.rep != v.rep || w.ver != v.ver {
 			return false
 		}
 	}
@@ -90,11 +94,11 @@ func (a *FuncAn) availTransfer(b *ssa.BasicBlock, m availMap) {
 			if _, isStruct := x.Type().Underlying().(*types.Struct); isStruct {
 				a.loadSnap[x] = snapshot(m)
 			}
-			if e, ok := m[k]; ok && types.Identical(e.rep.Type(), x.Type()) {
+			if e, ok := m[k]; ok && e.rep != nil && types.Identical(e.rep.Type(), x.Type()) {
 				a.canon[x] = e.rep
 			} else {
 				a.canon[x] = x
-				m[k] = availEnt{p, x}
+				m[k] = availEnt{p: p, rep: x}
 			}
 		case *ssa.Store:
 			w := a.pathOf(x.Addr)
@@ -103,10 +107,12 @@ func (a *FuncAn) availTransfer(b *ssa.BasicBlock, m availMap) {
 				continue
 			}
 			a.killByWrite(m, w)
-			m[w.key()] = availEnt{w, x.Val}
+			m[w.key()] = availEnt{p: w, rep: x.Val}
 		case ssa.CallInstruction:
 			if c, ok := x.(*ssa.Call); ok && c.Call.StaticCallee() != nil {
+				a.versionFields(c, m)
 				a.callSnap[c] = snapshot(m)
+				a.callVer[c] = snapshotVer(m)
 			}
 			a.killByCall(m, a.E.callWrites(a, x))
 		case *ssa.RunDefers:
@@ -118,9 +124,59 @@ func (a *FuncAn) availTransfer(b *ssa.BasicBlock, m availMap) {
 func snapshot(m availMap) map[string]ssa.Value {
 	s := make(map[string]ssa.Value, len(m))
 	for k, e := range m {
-		s[k] = e.rep
+		if e.rep != nil {
+			s[k] = e.rep
+		}
 	}
 	return s
+}
+
+func snapshotVer(m availMap) map[string]string {
+	var s map[string]string
+	for k, e := range m {
+		if e.rep == nil && e.ver != "" {
+			if s == nil {
+				s = map[string]string{}
+			}
+			s[k] = e.ver
+		}
+	}
+	return s
+}
+
+// versionFields: an in-module callee receives a pointer to a struct; the integer and sequence fields of that struct
+// whose content is not available get a synthetic version at this call.
+func (a *FuncAn) versionFields(c *ssa.Call, m availMap) {
+	callee := c.Call.StaticCallee()
+	if callee == nil || callee.Blocks == nil || !a.E.InModule(callee) {
+		return
+	}
+	for _, arg := range c.Call.Args {
+		pt, ok := arg.Type().Underlying().(*types.Pointer)
+		if !ok {
+			continue
+		}
+		st, ok := pt.Elem().Underlying().(*types.Struct)
+		if !ok || st.NumFields() > 12 {
+			continue
+		}
+		p := a.pathOf(arg)
+		if p == nil {
+			continue
+		}
+		for fi := 0; fi < st.NumFields(); fi++ {
+			ft := st.Field(fi).Type()
+			if _, _, isInt := a.E.intInfo(ft); !isInt && !isSeq(ft) {
+				continue
+			}
+			fp := &apath{root: p.root, steps: append(append([]step(nil), p.steps...), step{key: fmt.Sprintf(".%d", fi), st: pt.Elem(), field: fi}),
+				typ: ft, disp: p.disp + "." + st.Field(fi).Name()}
+			k := fp.key()
+			if _, have := m[k]; !have {
+				m[k] = availEnt{p: fp, ver: fmt.Sprintf("v@%p%s", c, k)}
+			}
+		}
+	}
 }
 
 func (a *FuncAn) computeCanon() {
@@ -144,7 +200,7 @@ func (a *FuncAn) computeCanon() {
 						continue
 					}
 					for k, e := range in {
-						if w, ok := o[k]; !ok || w.rep != e.rep {
+						if w, ok := o[k]; !ok || w.rep != e.rep || w.ver != e.ver {
 							delete(in, k)
 						}
 					}
@@ -297,6 +353,7 @@ func (a *FuncAn) condFacts(s *State, cond ssa.Value, truth bool) {
 		return
 	case *ssa.Call:
 		a.boolCallFacts(s, c, truth)
+		a.predCallFacts(s, c, truth)
 		if k, ok := a.pureCallKey(c); ok {
 			s.truth[k] = truth
 		}
@@ -1076,7 +1133,7 @@ func (a *FuncAn) transfer(b *ssa.BasicBlock, in *State, stop ssa.Instruction) *S
 			if hasPath {
 				ws := a.E.callWrites(a, x)
 				kill(func(p *apath) bool {
-					m := availMap{"x": availEnt{p, nil}}
+					m := availMap{"x": availEnt{p: p, rep: nil}}
 					a.killByCall(m, ws)
 					return len(m) == 0
 				})
